@@ -1,6 +1,6 @@
 // C06 corollary: CTI is +1 on a linearly increasing full window x_i = c + a i (a > 0) and -1 on a linearly decreasing one.
 // (For a merely monotone window Pearson's r is below 1, e.g. [1,2,4] -> 0.98: the statement's wording is stronger than its own main clause.)
-use crate::props::c04_averages::*;
+use crate::props::c00_affine::*;
 use crate::props::c07_cti_bound::*;
 use crate::props::c12_cti::*;
 
